@@ -150,7 +150,7 @@ Section SourceRefinement.
   Proof. exact (golite_peek_refines permI permI_ok). Qed.
 End SourceRefinement.
 
-(* nothing of the five translated bodies fell outside the translator's subset *)
+(* nothing of the translated method bodies (resetLocked, Reset, GetAddress, Peek, nextSeqid) fell outside the translator's subset; the construction functions are covered by C18_source_construction_complete *)
 Theorem C18_source_translation_complete : no_unsupported golite_funcs = true.
 Proof. exact golite_no_unsupported. Qed.
 
